@@ -157,6 +157,12 @@ func (fr *frame) runBlock(st *PState, b *ssa.BasicBlock, pred *ssa.BasicBlock, v
 				env := fr.loopEnv(st, b)
 				t, err := env.TrBool(c.Expr)
 				if err != nil {
+					if strings.Contains(err.Error(), "unknown identifier res_") || strings.Contains(err.Error(), "unknown identifier it_") {
+						// the invariant speaks about a call result that does not exist on this path: it is not assumed
+						// (its entry obligation above has already failed: undefined ghosts make goals false)
+						tc.notes[fmt.Sprintf("loop #%d invariant %q not assumed: %v", ord, c.Src, err)] = true
+						continue
+					}
 					bail("loop %d invariant: %v", ord, err)
 				}
 				st.Assume(t)
